@@ -101,7 +101,7 @@ def corpus():
     # the validated value, not the stored one, is compared by identity (setattr_original_value)
     out.append(mk_case(base_T(C="1", O="1", V="=,=,=,4,=,=,=,=", TT="tab"), names, allh, 0, 0, ["c0"],
                        ["ro 2", "set 3", "set 3", "set 4", "set 3"]))
-    # comparison mode lost on a second as_ctrait()
+    # regression (F23, fixed by 84d55f9): the comparison mode used to be lost on a second as_ctrait()
     out.append(mk_case(base_T(C="0", Z="s", D2="3"), names, allh, 0, 0, ["c0"], ["ro 2", "set 4", "set 4"]))
     out.append(mk_case(base_T(C="1", Z="t"), names, allh, 0, 0, ["c0"], ["ro 2", "set 3", "set 4", "set 3"]))
     # raising handlers, self-removing handlers, re-raise
